@@ -410,4 +410,32 @@ theorem recipe_leading_blanks :
     recipeLoop [b!"  atoms app-misc/extra", b!"\troot  /r "] 1 {} =
     recipeLoop [b!"atoms app-misc/extra", b!"root /r"] 1 {} := by rfl
 
+/-- **The `-root` and `-profile` switches override the recipe** (manual: "The -root
+    command-line switch overrides this"), for every recipe text: whatever `root` / `profile`
+    lines the recipe holds, a setting given on the command line is the one in force
+    (fix "stagemaker: -root and -profile override the recipe"). -/
+theorem recipe_switch_overrides (lines : List Bytes) (cmd : Recipe) :
+    (cmd.root ≠ [] → (recipeApply lines cmd).root = cmd.root) ∧
+    (cmd.profile ≠ [] → (recipeApply lines cmd).profile = cmd.profile) := by
+  constructor <;> intro h <;> simp [recipeApply, h]
+
+/-- without the switch the recipe's setting stands, and nothing else of the recipe's outcome
+    is touched by the override step -/
+theorem recipe_without_switch (lines : List Bytes) (cmd : Recipe) (hr : cmd.root = [])
+    (hp : cmd.profile = []) : recipeApply lines cmd = recipeLoop lines 1 cmd := by
+  simp [recipeApply, hr, hp]
+
+theorem recipe_override_keeps_rest (lines : List Bytes) (cmd : Recipe) :
+    let r := recipeLoop lines 1 cmd
+    let a := recipeApply lines cmd
+    a.atoms = r.atoms ∧ a.atomFiles = r.atomFiles ∧ a.addFiles = r.addFiles ∧
+    a.compress = r.compress ∧ a.nobdeps = r.nobdeps ∧ a.novdb = r.novdb ∧
+    a.emptydev = r.emptydev ∧ a.errors = r.errors := by
+  simp [recipeApply]
+
+/-- non-vacuity: a recipe that names another root, with and without the switch -/
+example : (recipeApply [b!"root /r", b!"profile /p"] { root := b!"/cmd" }).root = b!"/cmd" ∧
+          (recipeApply [b!"root /r", b!"profile /p"] { root := b!"/cmd" }).profile = b!"/p" ∧
+          (recipeApply [b!"root /r", b!"root /r2"] {}).root = b!"/r2" := by decide
+
 end Lc.Props.C17
